@@ -4,6 +4,7 @@
 package c14
 
 import (
+	gocontext "context"
 	"encoding/json"
 	"errors"
 	"fmt"
@@ -45,7 +46,7 @@ type Case struct {
 	// returns a value which writes nothing: "", emptystr, nilerr, emptybytes.
 	Pre string `json:"pre,omitempty"`
 	// Own is what the handler itself does to the response before it returns:
-	// "", flush, wh (WriteHeader 202), w (Write "own:").
+	// "", flush, wh (WriteHeader 202), w (Write "own:"), cancel (the request context is cancelled).
 	Own    string `json:"own,omitempty"`
 	Method string `json:"method"`
 }
@@ -220,6 +221,8 @@ func (c Case) table() (status int, body string, written bool) {
 
 func checkCase(c Case) (out evid.Outcome) {
 	var rw flamego.ResponseWriter
+	reqCtx, cancelReq := gocontext.WithCancel(gocontext.Background())
+	defer cancelReq()
 	h, returned := c.handler(func() {
 		switch c.Own {
 		case "flush":
@@ -228,6 +231,11 @@ func checkCase(c Case) (out evid.Outcome) {
 			rw.WriteHeader(202)
 		case "w":
 			_, _ = rw.Write([]byte("own:"))
+		case "cancel":
+			// the request is given up while the handler is at work (a deadline, a
+			// client that went away); what the handler returns is rendered all the
+			// same - return values are rendered first, then the chain stops
+			cancelReq()
 		}
 	})
 	f := flamego.NewWithLogger(io.Discard)
@@ -280,9 +288,9 @@ func checkCase(c Case) (out evid.Outcome) {
 	spy := rt.NewSpy()
 	if len(c.S)%2 == 0 {
 		// (half of the cases: an underlying writer with a WriteString method)
-		f.ServeHTTP(rt.StringSpy{Spy: spy}, rt.NewRequest(c.Method, path, nil))
+		f.ServeHTTP(rt.StringSpy{Spy: spy}, rt.NewRequest(c.Method, path, nil).WithContext(reqCtx))
 	} else {
-		f.ServeHTTP(spy, rt.NewRequest(c.Method, path, nil))
+		f.ServeHTTP(spy, rt.NewRequest(c.Method, path, nil).WithContext(reqCtx))
 	}
 	if c.Custom == "request" && c.Own == "" {
 		// the replacement was this request's: the next request, for which nobody
@@ -371,7 +379,11 @@ func checkCase(c Case) (out evid.Outcome) {
 	if len(spy.Log) > 0 && spy.Log[0][:2] != "WH" {
 		return evid.Fail("body-before-status", "calls on the underlying writer: %v for %s", spy.Log, desc)
 	}
-	if c.Pos != "action" {
+	if c.Own == "cancel" {
+		if markerRan {
+			return evid.Fail("continuation:"+c.Shape, "the following handler ran although the request context had been cancelled, for %s", desc)
+		}
+	} else if c.Pos != "action" {
 		if markerRan == wantWritten {
 			return evid.Fail("continuation:"+c.Shape, "the following handler ran=%v although the response written=%v for %s", markerRan, wantWritten, desc)
 		}
@@ -443,7 +455,7 @@ func genCase(t *rapid.T) Case {
 		Custom: []string{"", "", "", "app", "request"}[rapid.IntRange(0, 4).Draw(t, "custom")],
 		Method: []string{"GET", "GET", "GET", "HEAD"}[rapid.IntRange(0, 3).Draw(t, "method")],
 		Pre:    []string{"", "", "emptystr", "nilerr", "emptybytes"}[rapid.IntRange(0, 4).Draw(t, "pre")],
-		Own:    []string{"", "", "", "flush", "wh", "w"}[rapid.IntRange(0, 5).Draw(t, "own")],
+		Own:    []string{"", "", "", "flush", "wh", "w", "cancel"}[rapid.IntRange(0, 6).Draw(t, "own")],
 	}
 	if rapid.IntRange(0, 9).Draw(t, "anycode") == 0 {
 		c.Code = rapid.IntRange(100, 999).Draw(t, "rawcode")
